@@ -10,7 +10,7 @@ Not decided: the full finite-map equivalence over the construction grammar (a bo
 """
 from ..program import AnalysisError
 from ..rules import is_call, is_mcall, mentions, mentions_any
-from ..terms import C, Evaluator, G, P, is_t, mk_elem, mk_proj, show, subterms
+from ..terms import C, Evaluator, G, P, is_t, mk_elem, mk_proj, show, subterms, mk_cmp, mk_phi
 from .C35 import chm_mask_rules
 
 CM = "core/generative/choice_map.py"
@@ -151,8 +151,8 @@ def run(chk, prog):
     conc = [t for c_, t in rb.returns if any(is_t(x, "isinst") and p_ and x[2] == "int" for x, p_ in c_)]
     trac = [t for c_, t in rb.returns if any(is_t(x, "isinst") and not p_ and x[2] == "int" for x, p_ in c_)]
     okb1 = len(conc) == 1 and conc[0] == ("index", ("call", ("global", "list"), (CI,), ()), P("idx"))
-    want = ("ctor", "Switch", (P("idx"), ("fam", ("enumerate", CI), ("call", ("attr", ("elem", CI), "mask"), (("cmp", "==", ("enumidx", CI), P("idx")),), ()))), ())
-    want2 = ("ctor", "Switch", (P("idx"), ("fam", ("enumerate", CI), ("call", ("attr", ("elem", CI), "mask"), (("cmp", "==", P("idx"), ("enumidx", CI)),), ()))), ())
+    want = ("ctor", "Switch", (P("idx"), ("fam", ("enumerate", CI), ("call", ("attr", ("elem", CI), "mask"), (mk_cmp("==", ("enumidx", CI), P("idx")),), ()))), ())
+    want2 = ("ctor", "Switch", (P("idx"), ("fam", ("enumerate", CI), ("call", ("attr", ("elem", CI), "mask"), (mk_cmp("==", P("idx"), ("enumidx", CI)),), ()))), ())
     okb2 = len(trac) == 1 and trac[0] in (want, want2)
     chk.require(okb1 and okb2, "CHM-RECURSE", "Switch.build", "branch i masked by (i == idx), every branch kept in place", derived=show(trac[0])[:260] if trac else "no traced-index arm",
                 expected="int idx: list(chms)[idx]; traced idx: Switch(idx, [chm.mask(i == idx) for i, chm in enumerate(chms)]) - no branch dropped or reordered", where=W(sw, "build"))
